@@ -752,6 +752,8 @@ class Folder:
                         from .absint import Raised
 
                         raise Raised("KeyError", e)
+                if isinstance(recv, (bytes, bytearray)) and not isinstance(recv, Abstract) and m in ("ljust", "rjust", "hex", "startswith", "endswith", "count", "find", "index", "join", "strip", "lstrip", "rstrip"):
+                    return getattr(bytes(recv), m)(*[self.fold(a) for a in args])
                 if isinstance(recv, str) and m in ("split", "rsplit", "startswith", "endswith", "count", "replace", "join", "isdigit", "isascii", "isdecimal", "strip", "lstrip", "rstrip", "isspace", "splitlines", "partition", "rpartition", "find", "rfind", "removeprefix", "removesuffix", "lower", "upper", "casefold", "title", "isalpha", "isalnum", "isidentifier", "islower", "isupper"):
                     return getattr(recv, m)(*[self.fold(a) for a in args])
                 if (isinstance(recv, str) and m == "encode") or (isinstance(recv, (bytes, bytearray)) and m == "decode"):
@@ -771,7 +773,7 @@ class Folder:
                 repo_callee = None
             if not isinstance(repo_callee, (FuncInfo, ClassInfo)):
                 repo_callee = None
-        if e.keywords and repo_callee is None and name not in ("int", "itertools.product", "sorted", "max", "min", "functools.partial", "partial", "int.from_bytes") and not (isinstance(e.func, ast.Name) and isinstance(self.env.get(e.func.id), Abstract)) and not (isinstance(e.func, ast.Attribute) and dotted(e.func) and dotted(e.func).split(".")[0] in self.env):
+        if e.keywords and repo_callee is None and name not in ("int", "dict", "itertools.product", "sorted", "max", "min", "functools.partial", "partial", "int.from_bytes") and not (isinstance(e.func, ast.Name) and isinstance(self.env.get(e.func.id), Abstract)) and not (isinstance(e.func, ast.Attribute) and dotted(e.func) and dotted(e.func).split(".")[0] in self.env):
             raise Unfoldable(unparse(e))
         if isinstance(e.func, ast.Attribute) and e.func.attr == "to_bytes" and 1 <= len(args) <= 2:
             v = self.fold(e.func.value)
@@ -914,6 +916,17 @@ class Folder:
         if name in ("fractions.Fraction", "Fraction", "frac"):
             vals = [self.fold(a) for a in args]
             return Fraction(*vals)
+        if name == "dict" and len(args) <= 1 and name not in self.env:
+            d_: Dict[Any, Any] = {}
+            if args:
+                src_ = self.fold(args[0])
+                for kv_ in (src_.items() if isinstance(src_, dict) else src_):
+                    k_, v_ = kv_
+                    d_[k_] = v_
+            for kw_ in e.keywords:
+                if kw_.arg:
+                    d_[kw_.arg] = self.fold(kw_.value)
+            return d_
         if name in ("set", "frozenset", "tuple", "list"):
             v = self.fold(args[0]) if args else ()
             return {"set": frozenset, "frozenset": frozenset, "tuple": tuple, "list": list}[name](v)
@@ -960,6 +973,10 @@ class Folder:
         if name in ("map", "filter") and len(args) == 2:
             f = self.fold(args[0])
             vals = list(self.fold(args[1]))
+            if isinstance(f, ClassInfo) and name == "map":
+                from .absint import _Const
+
+                return [self.fold(ast.Call(func=args[0], args=[_Const(v_)], keywords=[])) for v_ in vals]
             if isinstance(f, (_Lambda, _LocalFn)):
                 res = [f.call(self, [v]) for v in vals]
                 return res if name == "map" else [v for v, k in zip(vals, res) if k]
@@ -1008,6 +1025,18 @@ class Folder:
         if name in ("itertools.repeat",) and len(args) == 1:
             v_ = self.fold(args[0])
             return _Repeat(v_)
+        if name in ("itertools.starmap", "starmap") and len(args) == 2:
+            # f(*row) for every row; the callee expression is kept so that classes / functions of the repository are called as
+            # they would be where the expression is written
+            from .absint import _Const
+
+            rows = [list(r_) for r_ in self.fold(args[1])]
+            return [self.fold(ast.Call(func=args[0], args=[_Const(v_) for v_ in row], keywords=[])) for row in rows]
+        if name in ("itertools.chain.from_iterable", "chain.from_iterable") and len(args) == 1:
+            out_c: list = []
+            for part in self.fold(args[0]):
+                out_c.extend(list(part))
+            return out_c
         if name in ("itertools.product", "itertools.combinations", "itertools.permutations", "itertools.combinations_with_replacement", "itertools.chain"):
             import itertools as _it
 
